@@ -26,7 +26,7 @@ RULE = (
     "in `schema` / `extend schema` incl. default-looking names; object without fields; union containing itself; duplicate enum value in "
     "base or via extension; duplicate type / directive definition; scalar without implementation; invalid extend: unknown target, wrong "
     "kind, member already in base, member repeated across two extensions; directive with a non-coroutine hook; syntactically invalid "
-    "text) is applied at every applicable site (deterministic stride cap of 120 per carrier); before the attempts two decoy schemas are "
+    "text; one name defined with two different kinds, in both orders) is applied at every applicable site (deterministic stride cap of 120 per carrier); before the attempts two decoy schemas are "
     "built in the same process in which the carrier's and the rewrites' names have the other kind (composites as inputs, inputs as objects). Oracle = create_engine raises AND an Engine "
     "whose cook() failed cannot answer a request. Distinct = SHA-1 of the mutated SDL; non-trivial = the site is inside an extension or "
     "behind a list/non-null wrapper."
@@ -231,6 +231,23 @@ def mutants(M, pieces):
             m = mk()
             m.append(copy.deepcopy(p))
             yield "duplicate_directive_definition", "custom", False, m, {}
+    # the same name defined twice with two different kinds, in both orders (one carrier type per kind)
+    other_defs = {"OBJECT": {"kind": "OBJECT", "fields": {"a": {"type": "Int", "args": {}}}, "interfaces": []}, "INTERFACE": {"kind": "INTERFACE", "fields": {"a": {"type": "Int", "args": {}}}},
+                  "ENUM": {"kind": "ENUM", "values": ["ZZ_A"]}, "INPUT": {"kind": "INPUT", "fields": {"a": {"type": "Int"}}}, "UNION": {"kind": "UNION", "members": objs[:1]}}
+    seen_kinds = set()
+    for i, p in enumerate(pieces):
+        if p["p"] != "type" or p["def"]["kind"] in seen_kinds or p["def"]["kind"] == "SCALAR":
+            continue
+        seen_kinds.add(p["def"]["kind"])
+        for k2, d2 in other_defs.items():
+            if k2 == p["def"]["kind"] or (k2 == "UNION" and not objs):
+                continue
+            m = mk()
+            m.append({"p": "type", "name": p["name"], "def": copy.deepcopy(d2)})
+            yield "duplicate_type_definition", "%s_then_%s" % (p["def"]["kind"].lower(), k2.lower()), False, m, {}
+            m = mk()
+            m.insert(0, {"p": "type", "name": p["name"], "def": copy.deepcopy(d2)})
+            yield "duplicate_type_definition", "%s_then_%s" % (k2.lower(), p["def"]["kind"].lower()), False, m, {}
     # (re-declaring a built-in scalar or directive is a documented way of overriding it: not a violation)
     m = mk()
     m.append({"p": "type", "name": "ZzNoImpl", "def": {"kind": "SCALAR"}})
